@@ -7,6 +7,7 @@ import (
 	"encoding/json"
 	"fmt"
 	"math/big"
+	"strings"
 
 	"github.com/gmrtd/gmrtd/document"
 	"github.com/gmrtd/gmrtd/iso7816"
@@ -23,7 +24,7 @@ import (
 
 func init() {
 	vc.Register(&vc.Check{ID: "C04", Level: "model_checking", Run: run, Replay: replay, QuickSec: 170, ThoroSec: 1800,
-		Rule: "real pace.DoPACE against the independent chip (own EC arithmetic, fixed-width ECKA secret per TR-03111) for ALL 77 configurations (parameter id 8..18 x {GM-3DES, GM-AES128/192/256, CAM-AES128/192/256}); terminal and chip randomness are explorer-owned (crypto/rand.Reader seam): scalar alphabet per role {2, n-2, pattern} in full product (quick: on 4 configurations; thorough: all 77) plus, on all 77, the slices where the shared x-coordinate or a transmitted public coordinate has a leading zero octet (found by deterministic search), passwords {TD1, TD2, TD3, TD1 extended, CAN}. Success oracle: Success, chip completed, first protected read works on both sides (same keys and counter), CAM result successful for CAM. Fail-closed (one deviation per run): wrong password, every single-bit flip of the encrypted nonce, mapping/agreement key replaced by {other valid point, off-curve point, the terminal's own key, truncated, 00}, every single-bit flip of the token, every single-bit flip of the encrypted chip-authentication data. Selection: every ordered subset (<=3) of a 7-entry PACEInfo alphabet containing a supported entry. states = protocol runs, transitions = exchanges; distinct_nontrivial = distinct (configuration, scalar/deviation class, outcome)",
+		Rule: "real pace.DoPACE against the independent chip (own EC arithmetic, fixed-width ECKA secret per TR-03111) for ALL 77 configurations (parameter id 8..18 x {GM-3DES, GM-AES128/192/256, CAM-AES128/192/256}); terminal and chip randomness are explorer-owned (crypto/rand.Reader seam): scalar alphabet per role {2, n-2, pattern} in full product (quick: on 4 configurations; thorough: all 77) plus, on all 77, the slices where the shared x-coordinate or a transmitted public coordinate has a leading zero octet (found by deterministic search), passwords {TD1, TD2, TD3, TD1 extended, CAN}. Success oracle: Success, chip completed, first protected read works on both sides (same keys and counter), CAM result successful for CAM. Fail-closed (one deviation per run): wrong password, every single-bit flip of the encrypted nonce, mapping/agreement key replaced by {other valid point, off-curve point, the terminal's own key, truncated, 00}, every single-bit flip of the token, every single-bit flip of the encrypted chip-authentication data; plus a device WITHOUT the password answering every step from {echo of the terminal's value, G, 2G} x {echo of the terminal's token, zeros, pattern} (complete 27-way product, reflection attacks). Selection: every ordered subset (<=3) of a 7-entry PACEInfo alphabet containing a supported entry. states = protocol runs, transitions = exchanges; distinct_nontrivial = distinct (configuration, scalar/deviation class, outcome)",
 		Assume: []string{"refchip PACE follows ICAO 9303-11 §4.4 with BSI TR-03111 FE2OS encoding of the shared secret", "refcrypto anchored to ICAO App. D; EC arithmetic self-checked (generator on curve, n*G = infinity)", "MAC / discrete-log hardness not searched"}})
 }
 
@@ -257,6 +258,40 @@ func runOne(pc paceCase) result {
 				termMapPub = w[9 : len(w)-1]
 			} else if n == 3 && len(w) > 9 {
 				termKaPub = w[9 : len(w)-1]
+			}
+		}
+		if len(pc.Dev) > 6 && pc.Dev[:6] == "nopwd/" && n >= 2 && n <= 4 {
+			// a device WITHOUT the password: every answer is fabricated from what the terminal sent (echo) or from public values
+			var mk, kk, tk string
+			fmt.Sscanf(strings.ReplaceAll(pc.Dev[6:], "/", " "), "%s %s %s", &mk, &kk, &tk)
+			w := chip.Log[n].Wire
+			pt := func(kind string, own []byte) []byte {
+				switch kind {
+				case "echo":
+					return own
+				case "G":
+					return curve.EncodePoint(curve.Gx, curve.Gy)
+				}
+				x, y := curve.ScalarMult(curve.Gx, curve.Gy, big.NewInt(2))
+				return curve.EncodePoint(x, y)
+			}
+			wrap := func(tag byte, v []byte) []byte {
+				in := append(append([]byte{tag}, encLen(len(v))...), v...)
+				return append(append(append([]byte{0x7C}, encLen(len(in))...), in...), 0x90, 0x00)
+			}
+			switch n {
+			case 2:
+				return wrap(0x82, pt(mk, w[9:len(w)-1]))
+			case 3:
+				return wrap(0x84, pt(kk, w[9:len(w)-1]))
+			case 4:
+				tok := make([]byte, 8)
+				if i := bytes.Index(w, []byte{0x85, 0x08}); i >= 0 && tk == "echo" {
+					tok = w[i+2 : i+10]
+				} else if tk == "pattern" {
+					tok = []byte{1, 2, 3, 4, 5, 6, 7, 8}
+				}
+				return wrap(0x86, tok)
 			}
 		}
 		if pc.Dev == "" || len(genuine) < 6 || genuine[len(genuine)-2] != 0x90 {
@@ -582,6 +617,19 @@ hostile:
 			do(sec3, pc, lab+"/"+pc.Dev)
 			pc.Dev = "ka/" + k
 			do(sec3, pc, lab+"/"+pc.Dev)
+		}
+		// a device without the password: complete product of its answer options
+		for _, mk := range []string{"echo", "G", "2G"} {
+			for _, kk := range []string{"echo", "G", "2G"} {
+				for _, tk := range []string{"echo", "zeros", "pattern"} {
+					if !c.Mine() {
+						continue
+					}
+					pc := base
+					pc.Dev = fmt.Sprintf("nopwd/%s/%s/%s", mk, kk, tk)
+					do(sec3, pc, lab+"/"+pc.Dev)
+				}
+			}
 		}
 		for b := 0; b < 64; b++ {
 			if !c.Mine() {
